@@ -381,6 +381,58 @@ let gen_rand ?(variants = false) seed count lo hi =
     end
   done
 
+
+(* model life <seed> <count> : lifetime histories (S-ctor): sessions of a few operations, every iterator dropped in a
+   random order (also while detached), stack buffers split again (with / without worker) or dropped, all variants,
+   constructors from / default / zeroed / from a Vec with spare capacity *)
+let shuffle l =
+  let a = Array.of_list l in
+  for i = Array.length a - 1 downto 1 do
+    let j = rnd (i + 1) in let t = a.(i) in a.(i) <- a.(j); a.(j) <- t
+  done; Array.to_list a
+
+let gen_life seed count =
+  seed_rng seed;
+  for h = 1 to count do
+    let g = { nextv = 100 } in
+    let (line, cfg) = gen_cfg_line g ~owned_ok:true in
+    let line = if (not cfg.c_owned) && cfg.c_heap && chance 30 then
+        String.concat " " (List.map (fun w -> if String.length w > 5 && String.sub w 0 5 = "ctor=" && w = "ctor=from" then "ctor=fromcap" else w) (String.split_on_char ' ' line))
+      else line in
+    Printf.printf "# life seed=%d n=%d\n%s\n" seed h line;
+    match init cfg with
+    | None -> ()
+    | Some s0 ->
+      let s = ref s0 in
+      let emit t = print_endline t; let (s', _) = step !s (parse_op t) in s := s' in
+      let sessions = if cfg.c_heap then 1 else 1 + rnd 3 in
+      (try
+         for sess = 1 to sessions do
+           let n = rnd 14 in
+           for _ = 1 to n do
+             let t = gen_op g !s in
+             let w = List.hd (String.split_on_char ' ' t) in
+             if w <> "drop" && w <> "dropbuf" && w <> "resplit" then emit t
+           done;
+           (* drop what exists, in a random order, with an observation in between *)
+           let order = shuffle (stages !s) in
+           List.iteri (fun i k ->
+               emit ("drop " ^ sname k);
+               if i < List.length order - 1 && chance 50 then
+                 (match stages !s with [] -> () | ks -> emit ("avail " ^ sname (pick ks)))) order;
+           if !s.freed then raise Exit;
+           if not cfg.c_heap then begin
+             if sess = sessions then (if chance 50 then emit "dropbuf")
+             else begin
+               emit (pick ["resplit 2"; "resplit 3"]);
+               List.iter (fun k -> emit ("avail " ^ sname k)) (stages !s);
+               if chance 70 then emit (pick ["pop"; "peek"; "getavail C"; "get1 W"; Printf.sprintf "pushinit %d" (List.hd (fresh_vals g 1)); "getn P 1"])
+             end
+           end
+         done
+       with Exit -> ())
+  done
+
 (* ---------- exhaustive transition coverage (G-exh) over the index / cache / detached layer ---------- *)
 let key (s : mstate) : string = obs s ^ (if s.hasW then "W" else "-")
   ^ String.concat "" (List.map (fun k -> if (it_of k s).det then "d" else "a") [P; W; C])
@@ -483,5 +535,6 @@ let () =
   | _ :: "spec" :: files -> List.iter spec_file files
   | [_; "rand"; seed; count; lo; hi] -> gen_rand (int_of_string seed) (int_of_string count) (int_of_string lo) (int_of_string hi)
   | [_; "randv"; seed; count; lo; hi] -> gen_rand ~variants:true (int_of_string seed) (int_of_string count) (int_of_string lo) (int_of_string hi)
+  | [_; "life"; seed; count] -> gen_life (int_of_string seed) (int_of_string count)
   | [_; "bfs"; maxlen; limit] -> gen_bfs (int_of_string maxlen) (int_of_string limit)
   | _ -> prerr_endline "usage: model seq <history-file>... | rand <seed> <count> <min> <max> | bfs <maxlen> <limit>"; exit 2
